@@ -213,7 +213,7 @@ def planted(rng, gen):
         elif kind == "last_child":
             n.add_child(Node(rng.choice(list(gen.known)), content="x"))
         elif kind == "unknown_child":
-            n.add_child(Node("verifUnknown"))
+            n.add_child(treegen.foreign_node(rng))
         elif kind == "below_invalid":
             c = Node("verifUnknown")
             c.add_child(Node("title"))
